@@ -570,6 +570,119 @@ fn wide_part(run: &Run, totals: &Mutex<Totals>) {
     });
 }
 
+/// The progress-report path.  `find_cycle_free_pivots_m` reports every 10 000th row when the matrix
+/// has more than 10 000 rows and the `log` level is at least Debug - a configuration no small input
+/// reaches.  Input: 9 999 rows with one unit entry on a private column (they sort first and always
+/// commit), then the gadget rows A = [2,1], B = [1,2]; A is the 10 000th task, i.e. the reporting
+/// one.  An execution has ~30 000 decisions, so the deviations are explored only in a window: all
+/// schedules with at most 1 deviation (thorough 2) among the last `WINDOW` decisions of the default
+/// execution (the tasks of A and B and the last unit rows); the prefix is the default schedule.
+/// The oracle is the property's, evaluated sparsely.
+const REPORT_ROWS: usize = 10_001;
+const WINDOW: usize = 48;
+
+fn report_path_entries(rows_type: bool) -> Vec<(usize, usize, i64)> {
+    let n = REPORT_ROWS;
+    let mut e: Vec<(usize, usize, i64)> = vec![];
+    for k in 0..n - 2 {
+        e.push((k, k + 2, 1));
+    }
+    e.extend([(n - 2, 0, 2), (n - 2, 1, 1), (n - 1, 0, 1), (n - 1, 1, 2)]);
+    if rows_type { e } else { e.into_iter().map(|(i, j, v)| (j, i, v)).collect() }
+}
+
+fn report_path_judge(entries: &[(usize, usize, i64)], rows_type: bool, pivs: &[(usize, usize)]) -> Result<(), String> {
+    use std::collections::HashMap;
+    let val: HashMap<(usize, usize), i64> = entries.iter().map(|&(i, j, v)| ((i, j), v)).collect();
+    let mut rpos: HashMap<usize, usize> = HashMap::new();
+    let mut cpos: HashMap<usize, usize> = HashMap::new();
+    for (k, &(i, j)) in pivs.iter().enumerate() {
+        if rpos.insert(i, k).is_some() {
+            return Err(format!("row {i} used twice"));
+        }
+        if cpos.insert(j, k).is_some() {
+            return Err(format!("column {j} used twice"));
+        }
+        match val.get(&(i, j)) {
+            Some(1) | Some(-1) => {}
+            other => return Err(format!("pivot entry a[{i}][{j}] = {other:?} is not +-1")),
+        }
+    }
+    for &(i, j, _) in entries {
+        if let (Some(&k), Some(&l)) = (rpos.get(&i), cpos.get(&j)) {
+            if (rows_type && k > l) || (!rows_type && k < l) {
+                return Err(format!("leading block not triangular: non-zero entry a[{i}][{j}] at permuted position ({k},{l})"));
+            }
+        }
+    }
+    Ok(())
+}
+
+fn report_path_body(a: &SpMat<i64>, rows_type: bool) -> Vec<(usize, usize)> {
+    let mut pf = PivotFinder::new(a, if rows_type { PivotType::Rows } else { PivotType::Cols }, PivotCondition::One);
+    pf.verif_run_cycle_free(&[]);
+    pf.result()
+}
+
+fn report_path_part(run: &Run, totals: &Mutex<Totals>) -> Value {
+    let th = run.thorough();
+    log::set_max_level(log::LevelFilter::Debug);
+    let out = Mutex::new(vec![]);
+    run.par_for(2, |k| {
+        let rows_type = k == 0;
+        let entries = report_path_entries(rows_type);
+        let a: SpMat<i64> = SpMat::from_entries((REPORT_ROWS, REPORT_ROWS), entries.clone());
+        let key = format!("pivot:Z:report-path:{}:One:phase[]:W2d", if rows_type { "Rows" } else { "Cols" });
+        let cfg = Config { workers: 2, choose_items: false, max_decisions: 1_000_000, min_items: 2, count_task_switches: true };
+        let (r0, tr0) = sched::run_scheduled(&cfg, &[], || report_path_body(&a, rows_type));
+        let n0 = tr0.decisions.len();
+        if tr0.abort.is_some() || r0.is_err() || tr0.par_calls == 0 {
+            run.fail(&key, &format!("default execution failed: abort={:?} par_calls={}", tr0.abort, tr0.par_calls), json!({"rows": REPORT_ROWS}));
+            return;
+        }
+        let from = n0.saturating_sub(WINDOW);
+        let mut outcomes: BTreeSet<usize> = BTreeSet::new();
+        let st = sched::explore_from(&cfg, Some(if th { 2 } else { 1 }), 100_000, from, || report_path_body(&a, rows_type), |r, tr| {
+            if let Some(m) = &tr.diverged {
+                eprintln!("MACHINERY ERROR: schedule replay diverged on {key}: {m}");
+                std::process::exit(3);
+            }
+            let detail = || json!({"input": "9 999 unit rows on private columns, then A = [2,1], B = [1,2] on columns 0, 1", "rows": REPORT_ROWS, "type": if rows_type {"Rows"} else {"Cols"},
+                                   "log_level": "Debug", "deviations_from_decision": from, "schedule_tail": tr.choices()[from.min(tr.decisions.len())..].to_vec(), "schedule_length": tr.decisions.len()});
+            match (&tr.abort, r) {
+                (Some(ab), _) => {
+                    run.fail(&key, &format!("aborted under schedule: {ab:?}"), detail());
+                    false
+                }
+                (None, Err(p)) => {
+                    let m = p.downcast_ref::<String>().cloned().or_else(|| p.downcast_ref::<&str>().map(|s| s.to_string())).unwrap_or_default();
+                    run.fail(&key, &format!("panicked after the parallel phase (result / top_sort): {m}"), detail());
+                    false
+                }
+                (None, Ok(pivs)) => match report_path_judge(&entries, rows_type, &pivs) {
+                    Ok(()) => {
+                        outcomes.insert(pivs.len());
+                        true
+                    }
+                    Err(why) => {
+                        run.fail(&key, &why, detail());
+                        false
+                    }
+                },
+            }
+        });
+        let mut t = totals.lock().unwrap();
+        t.executions += st.executions;
+        t.points += st.points;
+        t.inputs += 1;
+        t.nontrivial_inputs += 1;
+        out.lock().unwrap().push(json!({"type": if rows_type {"Rows"} else {"Cols"}, "rows": REPORT_ROWS, "decisions_in_default_execution": n0, "deviation_window": format!("last {WINDOW} decisions"),
+                                        "executions": st.executions, "complete_within_window": st.complete, "distinct_pivot_counts": outcomes}));
+    });
+    log::set_max_level(log::LevelFilter::Off);
+    json!({"rule": "more than 10 000 rows and log level Debug: the reporting path of find_cycle_free_pivots_m; deviations only inside a window at the end of the default schedule", "cases": out.into_inner().unwrap()})
+}
+
 fn main() {
     let run = Run::new("C11", "model_checking");
     sched::install_hook();
@@ -620,6 +733,7 @@ fn main() {
 
     // ---- wide inputs (34 rows in the parallel phase) --------------------------------------------------
     wide_part(&run, &totals);
+    let report_path = report_path_part(&run, &totals);
 
     if th {
         sweep::<i64>(&run, &totals, "Z", &zal, &[(3, 3)], &all_cfg, &["public", "phase0"], 2, true, Some(3));
@@ -656,6 +770,7 @@ fn main() {
         "write_lock_points_passed": t.retries_seen,
         "scheduling_points_passed": t.points,
         "replayed_twice_for_determinism": t.replays_checked,
+        "report_path": report_path,
         "wide_inputs": {"count": run.get("wide_inputs"), "rule": "17 gadgets [2,1]/[1,2] on disjoint column pairs, 34x34, layouts 'A rows then B rows' and 'interleaved', Rows and Cols, phase-only and public entry, W = 2, every hand-over a deviation, bound 1 (thorough 2); plus 42x124 inputs with one gadget and 40 rows that always commit (B second, in the middle or last in the finder's weight order)"},
         "bounds": {"workers": "2 (3 on 0/1 3x3; thorough: 3 and 4 on 4x3/4x4)", "preemption_bound": "2 (unbounded = complete for shapes <= 2x3/3x2; thorough 3 on 3x3)",
                    "note": "a schedule is the vector of worker (and item) choices at task start, before every acquisition of the shared RwLock (read and write), and at task end"},
